@@ -294,8 +294,18 @@ def values_equal(a, b):
 		return to_term(a) == to_term(b)
 	if isinstance(a, SObj) and isinstance(b, SObj):
 		return a.term == b.term
+	if isinstance(a, SOpt) and isinstance(b, SOpt) and a.T is not b.T:
+		return z3.And(a.is_none(), b.is_none())      # optionals of different types are equal only when both are None
 	if isinstance(a, SOpt) or isinstance(b, SOpt):
 		T = (a if isinstance(a, SOpt) else b).T
+		other = b if isinstance(a, SOpt) else a
+		if not isinstance(other, SOpt) and other is not None:
+			try:
+				T.T.unwrap(other)
+			except Exception:
+				return False
+			if isinstance(other, SV) and hasattr(other, 'term') and other.term.sort() != T.T.sort:
+				return False
 		return T.unwrap(a) == T.unwrap(b)
 	if isinstance(a, SArr) and isinstance(b, (bytes, bytearray)):
 		conj = [a.length == len(b)] + [a.at(i) == b[i] for i in range(len(b))]
